@@ -9,7 +9,9 @@ LoginClasses  == {"empty", "ok", "control"}
 EmailClasses  == {"empty", "ok", "control"}
 AvatarClasses == {"empty", "url", "noturl", "multiline"}
 NonceClasses  == {"short", "ok", "long"}
-ClockClasses  == {"grow", "same", "shrink", "dropped"}    \* second version's clock relative to the first's
+ClockClasses  == {"grow", "same", "shrink", "dropped", "dropped_all", "dropped_null", "replaced"}
+   \* second version's clocks relative to the first's: one of two dropped; all dropped (empty map; no map at all); all
+   \* dropped and another one introduced
 
 NonEmpty(c) == c \in {"ok", "unicode", "control", "multiline"}
 OneLine(c) == c \notin {"control", "multiline"}
